@@ -267,7 +267,8 @@ func genC08(r *Rng, e *Emitter, n int) {
 				}
 				parts = append([]string{fmt.Sprintf("(f %d %d %s)", int(l0), st, sxCoord(fc))}, parts...)
 			}
-			clone := r.chance(1, 3)
+			clone := r.chance(1, 2)
+			cloneAt := r.Intn(k + 1)
 			e.tally(fmt.Sprintf("extend-init=%d clone=%v", init, clone))
 			e.emit("C08.ext", fmt.Sprintf("(%d (%s))", int(l0), strings.Join(parts, " ")),
 				guard(func() string {
@@ -281,11 +282,16 @@ func genC08(r *Rng, e *Emitter, n int) {
 					if init == 3 {
 						b = first.Bounds()
 					}
-					if clone {
-						b = b.Clone()
-					}
-					for _, g := range gs {
+					// a snapshot (Clone) taken at any moment — before the first geometry, between two of them,
+					// after the last — carries on as the box it was taken of
+					for j, g := range gs {
+						if clone && j == cloneAt {
+							b = b.Clone()
+						}
 						b.Extend(g)
+					}
+					if clone && cloneAt >= len(gs) {
+						b = b.Clone()
 					}
 					return "(ok " + sxBounds(b) + ")"
 				}))
